@@ -4,6 +4,9 @@ From Coq Require Import List NArith ZArith Permutation.
 From Coq.Strings Require Import Byte.
 From SP Require Import Bytes Params Msgpack Crypto Errors Packets Chunker Rand Verify Encrypt Decrypt EncryptProofs.
 From SP Require Import BaseX Encodings Armor ArmorProofs ArmoredForms.
+From SP Require Import GoLang GoLang2 GoAst GoAstProofs GoAstProofs2 GoAstProofs3.
+From Coq Require String.
+Import String.StringSyntax.
 Import ListNotations.
 Open Scope N_scope.
 
@@ -107,6 +110,47 @@ Theorem C01_armored_form_agrees_reflow (c : crypto) (vd : validator) (kr : keyri
   bind (open_all c vd kr wire) (fun r => Ok (fst r, snd r, brand)).
 Proof. exact (armored_decrypt_agrees_reflow c vd kr wire brand H' B' F' T'). Qed.
 
+(* SOURCE TIE (stateful functions): the terms f_saltpack_decryptStream_* are generated on every run from
+   the Go syntax trees of /repo's decryptStream.processHeader, tryVisibleReceivers and
+   tryHiddenReceivers (harness/cmd/gen/goast.go).  Under the extended Go semantics of model/GoLang2.v
+   (field/map/element assignment, loops with break/continue, the receiver object's final state), with
+   the keyring, key objects, version validator and NaCl primitives interpreted by ext_keyring /
+   ext_process over the crypto record and the model's keyring, they compute exactly what the model's
+   receiver does with a header — for ALL headers, keyrings and validators admitting majors 1/2:
+   the same error class, and on success the same MessageKeyInfo (sender, receiver key, hidden flag,
+   named receivers, number of anonymous receivers) and decryption state (payload key, MAC key,
+   position) left in the decryptStream object. *)
+Theorem C01_source_processHeader (c : crypto) (vd : validator) (kr : keyring) (hh : bytes) (h : header) :
+  (forall v, validate_version vd v = true -> (vmaj v = 1 \/ vmaj v = 2)%Z) ->
+  (N.of_nat (List.length (h_rcvs h)) < 4294967296)%N ->
+  let r := run_func2 (ext_process c vd kr) f_saltpack_decryptStream_processHeader [g_ds0 hh; g_enc_header h] in
+  match process_enc_header c vd kr hh h with
+  | Err e => g_hdr_err (fst r) = Some e
+  | Ok (m, st) =>
+    fst r = ORet [VNil] /\
+    exists ds', lookup "ds" (snd r) = Some ds' /\ read_ds ds' = Some (m, st)
+  end.
+Proof. exact (go_decrypt_processHeader c vd kr hh h). Qed.
+
+Theorem C01_source_tryHiddenReceivers (c : crypto) (vd : validator) (kr : keyring) (hh : bytes) (h : header) :
+  (vmaj (h_version h) = 1 \/ vmaj (h_version h) = 2)%Z ->
+  (N.of_nat (List.length (h_rcvs h)) < 4294967296)%N ->
+  let r := run_func2 (ext_keyring c vd kr) f_saltpack_decryptStream_tryHiddenReceivers
+                     [g_ds0 hh; g_enc_header h; VBytes (h_a h)] in
+  g_try_result (fst r) = try_hidden c (kr_keys kr) (h_version h) (h_a h) (h_rcvs h).
+Proof. exact (go_tryHiddenReceivers c vd kr hh h). Qed.
+
+Theorem C01_source_tryVisibleReceivers (c : crypto) (vd : validator) (kr : keyring) (hh : bytes) (h : header) :
+  (vmaj (h_version h) = 1 \/ vmaj (h_version h) = 2)%Z ->
+  (N.of_nat (List.length (h_rcvs h)) < 4294967296)%N ->
+  let r := run_func2 (ext_keyring c vd kr) f_saltpack_decryptStream_tryVisibleReceivers
+                     [g_ds0 hh; g_enc_header h; VBytes (h_a h)] in
+  g_try_result (fst r) = try_visible c kr (h_version h) (h_a h) (h_rcvs h).
+Proof. exact (fun Hv Hl => proj1 (go_tryVisibleReceivers c vd kr hh h Hv Hl)). Qed.
+
+Print Assumptions C01_source_processHeader.
+Print Assumptions C01_source_tryHiddenReceivers.
+Print Assumptions C01_source_tryVisibleReceivers.
 Print Assumptions C01_armored_form_agrees.
 Print Assumptions C01_armored_form_agrees_reflow.
 Print Assumptions C01_sender_structure.
